@@ -20,7 +20,7 @@ EXHAUSTIVE = {"quick": True, "thorough": True}
 RULE = (
     "application with a lenient command, a command that is lenient through an overridden configuration default, a command with a default sub-command, typed options, a failing "
     "handler and one parser object shared by four commands; a catalogue "
-    "of 31 command lines (valid, missing / surplus argument, unknown option / command, help in its three forms, help with an "
+    "of 33 command lines (valid, missing / surplus argument, unknown option / command, help in its three forms, help with an "
     "ill-typed option, version, empty line, lenient lines, -v / -vvv runs). Every history of length 2..L over the catalogue is run on ONE "
     "application and each run compared (status, stdout, stderr, handler arguments) with the same line on a fresh "
     "application; each history is run with fresh RawArgs per run and with the same RawArgs object reused for consecutive "
@@ -30,7 +30,7 @@ RULE = (
     "run before a normal run; distinct by tuple of line ids / (order, customisation)."
 )
 BOUND = {
-    "quick": "all 961 histories of length 2 + 1500 sampled of length 3 x 2 RawArgs modes; 12 style orders; 40 component double renders",
+    "quick": "all 1089 histories of length 2 + 1500 sampled of length 3 x 2 RawArgs modes; 12 style orders; 40 component double renders",
     "thorough": "all histories of length 2-3 (30752) + 20000 sampled of length 4 x 2 RawArgs modes; 24 orders x 5 customisations; 400 double renders",
 }
 ASSUMPTIONS = [
@@ -44,6 +44,8 @@ LINES = [
     ["one", "--num=7", "x", "y"], ["one", "x", "--num=8", "--bogus"], ["one", "-V", "x", "--bogus"],
     # 25-30: verbosity switches (a switch governs its own run), a command that is lenient through an overridden default
     ["one", "x", "-vvv"], ["bad", "-vvv"], ["one", "x", "-v"], ["dfl", "a", "b", "c"], ["help", "dfl"], ["dfl", "--help"],
+    # 31-32: a handler given as a factory that keeps state on itself
+    ["stateful"], ["stateful", "fail"],
 ]
 
 
@@ -104,6 +106,24 @@ class Env(object):
         other = grp.create_sub_command("other")
         other.set_description("other sub").set_handler(H("other"))
         c.create_command("bad").set_description("fails").set_handler(H("bad", True))
+        class Stateful(object):
+            """Given to the configuration as a factory (the class): every run gets an object of its own."""
+
+            def __init__(self):
+                self.calls = 0
+                self.failed = None
+
+            def handle(self, args, io, command):
+                self.calls += 1
+                log.append((command.full_name, args.arguments(True), args.options(False), io.verbosity))
+                io.write_line("call %d of this handler object%s" % (self.calls, "" if self.failed is None else ", after " + self.failed))
+                if args.argument("what") == "fail":
+                    self.failed = "a failure"
+                    raise RuntimeError("asked to fail")
+                return 0
+
+        st = c.create_command("stateful").set_description("handler with state")
+        st.add_argument("what", A.OPTIONAL, "what to do").set_handler(Stateful)
         many = c.create_command("many").set_description("many values")
         many.add_argument("items", A.MULTI_VALUED, "items").add_option("flag", "f", O.NO_VALUE, "a flag").set_handler(H("many"))
         many.set_args_parser(shared_parser)
@@ -160,8 +180,8 @@ def classify(record, k):
 
 
 HELPISH = {6, 7, 8, 9, 17, 29, 30}
-FAILING = {2, 3, 4, 5, 9, 16, 26}
-NORMAL = {0, 1, 12, 13, 14, 15, 19, 21, 25, 27, 28}
+FAILING = {2, 3, 4, 5, 9, 16, 26, 32}
+NORMAL = {0, 1, 12, 13, 14, 15, 19, 21, 25, 27, 28, 31}
 
 
 def nontrivial(idx):
@@ -397,7 +417,65 @@ def run_styles(sh, orders, customs):
                         sh.violate("style-interference", rec, "after creating %r and customising %r (%s) a table with style %r renders as %r, in a pristine process %r" % (
                             list(order), cust_name, what, name, text[:90], pristine[name.replace("fresh:", "")][:90]))
                         break
+    run_cell_styles(sh)
     sh.sample({"kind": "styles", "order": list(orders[0]), "customise": [customs[-1], "vertical-chars"]})
+
+
+def cellstyle_child():
+    """Pristine subprocess: argv[1] = JSON list of colour names; one table per colour, each with tag-less cell,
+    header and border styles of that colour, rendered in that order on decorated outputs. Prints JSON {colour: text}."""
+    colours = json.loads(sys.argv[1])
+    repo.activate()
+    from clikit.api.formatter import Style
+    from clikit.formatter import AnsiFormatter
+    from clikit.io import BufferedIO
+    from clikit.ui.components import Table
+    from clikit.ui.rectangle import Rectangle
+    from clikit.ui.style import TableStyle
+
+    out = {}
+    for colour in colours:
+        st = TableStyle.ascii()
+        st.cell_style = Style().fg(colour)
+        st.header_cell_style = Style().fg(colour).bold()
+        st.border_style.style = Style().bg(colour)
+        t = Table(st)
+        t.set_header_row(["Head", "Second"])
+        t.add_row(["a", "some <b>bold</b> text"])
+        io = BufferedIO("", AnsiFormatter(forced=True))
+        io.set_terminal_dimensions(Rectangle(60, 20))
+        t.render(io)
+        out[colour] = io.fetch_output()
+    sys.stdout.write(json.dumps(out))
+
+
+def run_cell_styles(sh):
+    """Tables with different (tag-less) cell / header / border styles rendered one after the other in one process:
+    each renders as it does in a process of its own."""
+    def run(colours):
+        env = dict(os.environ)
+        root = os.path.dirname(os.path.dirname(os.path.dirname(os.path.abspath(__file__))))
+        env["PYTHONPATH"] = root
+        p = subprocess.run([sys.executable, "-B", "-c", "import rv.checks.c17 as m; m.cellstyle_child()", json.dumps(colours)], cwd=root, env=env,
+                           stdout=subprocess.PIPE, stderr=subprocess.PIPE, timeout=120)
+        if p.returncode != 0:
+            raise RuntimeError("cell-style child failed: %s" % p.stderr.decode()[-400:])
+        return json.loads(p.stdout.decode())
+
+    colours = ["red", "green", "blue"]
+    try:
+        alone = dict((c, run([c])[c]) for c in colours)
+        for order in (["red", "green", "blue"], ["blue", "red", "green"], ["green", "green", "red"]):
+            got = run(order)
+            sh.case(("cell-styles", tuple(order)), True)
+            sh.count("cell_style_orders")
+            for c, text in got.items():
+                if text != alone[c]:
+                    sh.violate("style-interference", {"kind": "cell-styles", "order": order}, "after tables styled %r, the table whose cells are %s renders as %r, in a process of its own %r" % (
+                        order[:order.index(c)], c, text[:100], alone[c][:100]))
+                    return
+    except Exception as e:
+        sh.inconclusive_because("cell-style subprocess failed: %s" % e)
 
 
 # ---- trace cache across I/O capabilities -------------------------------------------------------------------
